@@ -2,7 +2,7 @@
    real typedpy: the graph of an instance and of its copy.copy / copy.deepcopy / pickle round trip, objects
    identified by id().  The objects reachable from the original come first (indices below hc_n0). *)
 From Coq Require Import ZArith NArith String List Bool Arith. Import ListNotations.
-From TP Require Export Base.PyVal Base.PyEq Struct.CopyHeap Gen.CopySites.
+From TP Require Export Base.PyVal Base.PyEq Struct.CopyHeap Struct.StatePolicy Gen.CopySites Check.C11chk.
 
 Inductive hkind := HDeep | HPickle | HCopy.
 
@@ -27,7 +27,7 @@ Definition h_model (c : hcase) : option (heap * child) :=
   match hc_kind c with
   | HDeep => dc copy_sites HFUEL (h_old c) (hc_x c)
   | HPickle => pickle_heap HFUEL (h_old c) (hc_x c)
-  | HCopy => copy_shallow (h_old c) (hc_x c)
+  | HCopy => if copy_is_dict_update then copy_shallow (h_old c) (hc_x c) else None
   end.
 
 Definition subset_loc (a b : list loc) : bool := forallb (fun l => mem_loc l b) a.
@@ -78,3 +78,21 @@ Definition policy_readable : bool :=
   | UnknownPol, _, _, _ | _, UnknownPol, _, _ | _, _, UnknownPol, _ | _, _, _, UnknownPol => false
   | _, _, _, _ => true
   end.
+
+(* ------------------------------------------------------------------ value-level copies, pickle under the generated policy *)
+
+(* as Check/C11chk.c_mismatch, with the pickle round trip computed from the __getstate__ policy read from
+   the current source *)
+Definition c_model_gen (c : ccase) : option inst :=
+  match cc_kind c with
+  | KPickle => pickle_rt_pol state_sites (cc_cls c) (cc_x c)
+  | _ => Some (c_model c)
+  end.
+
+Definition c_mismatch_gen (c : ccase) : bool :=
+  match c_model_gen c with
+  | Some y => negb (inst_eqb y (cc_obs c))
+  | None => true
+  end.
+
+Definition state_policy_is_safe : bool := state_policy_safe state_sites.
